@@ -243,6 +243,8 @@ def execute(case, trace=False):
     seams.uninstall()
     seams.seed_real_streams(case["seed"])
     out, exc = None, None
+    case = dict(case)  # build() may attach the intervals a from_params construction drew
+    case.pop("_drawn_intervals", None)
     with seams.quiet():
         try:
             out = GP.build(case)()
@@ -324,7 +326,7 @@ def execute(case, trace=False):
     cpat = tuple(sorted(v for d in case.get("cohesion", {}).values() for v in d.values() if v in (0, 1)))
     res = {
         "violations": violations, "probes": probes, "faults": faults, "policies": {"seeded(genuine generators)": 1},
-        "trace": f"{gen}|{nb}|{sorted(len(v) for v in case.get('slates', {}).values())}|{zpat}|{cpat}|{'1' if N == 1 else 's' if N < 5 else 'm' if N < 50 else 'l'}|{case['by_bloc']}|{case.get('ballot_length')}|{case.get('num_votes')}|{case.get('defaults')}",
+        "trace": f"{gen}|{'fp' if case.get('from_params') else ''}|{nb}|{sorted(len(v) for v in case.get('slates', {}).values())}|{zpat}|{cpat}|{'1' if N == 1 else 's' if N < 5 else 'm' if N < 50 else 'l'}|{case['by_bloc']}|{case.get('ballot_length')}|{case.get('num_votes')}|{case.get('defaults')}",
         "nontrivial": nontrivial, "rounds": 1, "draws": 0, "digest": digest([dig, type(exc).__name__ if exc else None]),
         "summary": {"generator": gen, "N": N, "raised": type(exc).__name__ if exc else None},
     }
